@@ -489,9 +489,6 @@ structure O8 where
   a : List A8 := []
   /-- slot declared offline by the last `dp.tx` (live → not live): its Offline event is due -/
   due : Option Nat := none
-  /-- how often the known finding was reported in this run (it is reported 20 times at most, so that
-  it cannot crowd other failures out of the report) -/
-  kSeen : Nat := 0
   deriving Inhabited
 
 def a8Of (o : O8) (slot : Nat) : A8 := o.a.getD slot {}
@@ -547,12 +544,6 @@ def oracle8 (b b' : Base) (seen : Seen) (views : List PView) (o : O8) : O8 × Ve
               if f.fcv ∧ f.fcb ≠ f0.fcb then (o2, none)
               else fail o2 s!"toggle_after_accept: request to #{r.da} after an accepted reply carries FCV={dpB01 f.fcv} FCB={dpB01 f.fcb}, previous FCB={dpB01 f0.fcb}"
             else if f = f0 ∧ k0 ≠ r.kind then
-              -- known finding: `request_diagnostics()` between an unanswered Data_Exchange request and
-              -- its retransmission turns the retransmission into a diagnostics request with the same bit
-              if k0 = .dx ∧ r.kind = .diag ∧ x.diagReq ∧ !x.anyReply then
-                if o2.kSeen ≥ 20 then (o2, none) else
-                ({ o2 with kSeen := o2.kSeen + 1 }, some ("K_C08_diagreq_retry", s!"request_diagnostics() while the Data_Exchange request to #{r.da} is unanswered: the retransmission slot is used for a diagnostics request with the same frame count bit"))
-              else
               fail o2 s!"same_fcb_only_retransmit: request to #{r.da} repeats the frame count bit of an unanswered request of another service"
             else (o2, none)
     | _, _ => (o1, none)
@@ -579,7 +570,7 @@ def oracle8 (b b' : Base) (seen : Seen) (views : List PView) (o : O8) : O8 × Ve
   | .diagreq slot => (setA8 o slot { a8Of o slot with diagReq := true }, none)
   | _ => (o, none)
 
-def oracleC08 := withBase oracle8 (fun old => ({ kSeen := old.kSeen } : O8))
+def oracleC08 := withBase oracle8 (fun _ => ({} : O8))
 
 /-! ### C14 — cycles and events -/
 
